@@ -3,8 +3,11 @@
 package route
 
 import (
+	"net/http"
+	"net/http/httptest"
 	"sync"
 	"sync/atomic"
+	"time"
 
 	dest "github.com/grafana/carbon-relay-ng/destination"
 	"github.com/grafana/carbon-relay-ng/matcher"
@@ -37,5 +40,55 @@ func VerifC14HashRingEmptied() {
 	name := verifNameBytes(1 + verifChoice("namelen", 2))
 	line := append(append([]byte{}, name...), []byte(" 1 1500000000")...)
 	r.Dispatch(line)
+	verifCover("end")
+}
+
+// VerifC14GrafanaNetParams: whatever numeric options a grafanaNet route is configured with (concurrency,
+// bufSize, flushMaxNum; zero and negative included; one free at a time), the real constructor either refuses
+// them with an error or the route works: building it, dispatching two metrics of different series to it and
+// shutting it down never panics (the shard choice is hash % concurrency, every shard buffer has
+// bufSize / concurrency slots).
+func VerifC14GrafanaNetParams() {
+	dir := verifTempDir()
+	verifWriteFile(dir+"/storage-schemas.conf", "[default]\npattern = .*\nretentions = 10s:1d\n")
+	verifWriteFile(dir+"/storage-aggregation.conf", "[default]\npattern = .*\nxFilesFactor = 0.5\naggregationMethod = avg\n")
+	addr := "http://localhost/metrics"
+	if !verifIsSymbolic() {
+		// natively the peer is a local server that acknowledges everything (the engine's HTTP model does the same
+		// when no failure is allowed)
+		srv := httptest.NewServer(http.HandlerFunc(func(w http.ResponseWriter, r *http.Request) { w.WriteHeader(200) }))
+		defer srv.Close()
+		addr = srv.URL + "/metrics"
+	}
+	verifHTTPMaxFailures(0)
+	cfg, err := NewGrafanaNetConfig(addr, "key", dir+"/storage-schemas.conf", dir+"/storage-aggregation.conf")
+	if err != nil {
+		panic(err)
+	}
+	num := func(name string) int { return int(int16(verifUint16(name))) }
+	cfg.Concurrency, cfg.BufSize, cfg.FlushMaxNum = 2, 4, 1
+	cfg.Timeout = time.Second
+	switch verifChoice("which", 3) {
+	case 0:
+		cfg.Concurrency = num("concurrency")
+	case 1:
+		cfg.BufSize = num("bufSize")
+	case 2:
+		cfg.FlushMaxNum = num("flushMaxNum")
+	}
+	// sizes are bounded above only to keep allocations (and the number of workers) small
+	verifAssume(cfg.Concurrency <= 3 && cfg.BufSize <= 8)
+	m, _ := matcher.New("", "", "", "", "", "")
+	rr, err := NewGrafanaNet("gnet", m, cfg)
+	if err != nil {
+		verifCover("rejected")
+		return
+	}
+	r := rr.(*GrafanaNet)
+	verifSettle()
+	r.Dispatch([]byte("a.x 1 1500000000"))
+	r.Dispatch([]byte("b.y 2 1500000001"))
+	verifSettle()
+	r.Shutdown()
 	verifCover("end")
 }
